@@ -115,8 +115,10 @@ def main():
     ap.add_argument("-j", type=int, default=16)
     ap.add_argument("-k", default="")
     ap.add_argument("--list", action="store_true")
+    ap.add_argument("--skip-refactor", action="store_true", help="only the detection side (mutants, benign edits, seeded changes)")
     a = ap.parse_args()
-    todo = [m for m in MUTANTS + BENIGN + seeded_variants() + refactor_variants() if a.k in m[0] or a.k in ",".join(m[1])]
+    todo = [m for m in MUTANTS + BENIGN + seeded_variants() + ([] if a.skip_refactor else refactor_variants())
+            if a.k in m[0] or a.k in ",".join(m[1])]
     if a.list:
         for m in todo:
             print(m[0], m[1], m[2])
